@@ -43,6 +43,24 @@ def _r141(ctx: Ctx) -> None:
         if isinstance(n, ast.Assign) and len(n.targets) == 1 and isinstance(n.targets[0], ast.Name) \
                 and isinstance(n.value, ast.BinOp) and isinstance(n.value.op, ast.FloorDiv):
             quot.setdefault(n.targets[0].id, []).append(n)
+    # q, r = divmod(A, B): q is a quotient and r the matching remainder
+    dm = {}
+    for n in stmts:
+        if isinstance(n, ast.Assign) and len(n.targets) == 1 and isinstance(n.targets[0], ast.Tuple) \
+                and len(n.targets[0].elts) == 2 and all(isinstance(e, ast.Name) for e in n.targets[0].elts) \
+                and isinstance(n.value, ast.Call) and isinstance(n.value.func, ast.Name) and n.value.func.id == 'divmod' \
+                and len(n.value.args) == 2 and not n.value.keywords:
+            qn, rn = (e.id for e in n.targets[0].elts)
+            A_, B_ = n.value.args
+            fake = ast.copy_location(ast.Assign(targets=[ast.Name(id=qn, ctx=ast.Store())],
+                                                value=ast.BinOp(left=A_, op=ast.FloorDiv(), right=B_)), n)
+            ast.fix_missing_locations(fake)
+            quot.setdefault(qn, []).append(fake)
+            dm.setdefault(rn, []).append(ast.copy_location(ast.BinOp(left=A_, op=ast.Mod(), right=B_), n))
+    stores = {}
+    for n in ast.walk(fn):
+        if isinstance(n, ast.Name) and isinstance(n.ctx, ast.Store):
+            stores[n.id] = stores.get(n.id, 0) + 1
     ctx.need(quot, 'R14.1', site, 'no quotient (A // B) found in run_parallel')
     found = 0
     for n in stmts:
@@ -58,10 +76,12 @@ def _r141(ctx: Ctx) -> None:
             rem = n.value.right
         if tgt is None or tgt not in quot:
             continue
+        if isinstance(rem, ast.Name) and len(dm.get(rem.id, ())) == 1 and stores.get(rem.id) == 1:
+            rem = dm[rem.id][0]
         if not (isinstance(rem, ast.BinOp) and isinstance(rem.op, ast.Mod)):
             continue
         found += 1
-        q = [d for d in quot[tgt] if d.lineno < n.lineno][-1]
+        q = sorted((d for d in quot[tgt] if d.lineno < n.lineno), key=lambda d: d.lineno)[-1]
         A, B = ast.unparse(q.value.left), ast.unparse(q.value.right)
         A2, B2 = ast.unparse(rem.left), ast.unparse(rem.right)
         # B must not be reassigned between quotient and remainder unless the remainder refers to the old value
